@@ -14,11 +14,11 @@ import gen_dump  # noqa: E402
 
 # verdict classes -> properties that report them
 CLASSES = {
-    'C01': {'factor_to', 'factor_from', 'std_not_unit_magnitude', 'map_keys', 'map_size'},
+    'C01': {'factor_to', 'factor_from', 'std_not_unit_magnitude', 'map_keys', 'map_size', 'dispatch_mismatch'},
     'C06': {'dims_symbol', 'qtype_dims', 'qtype_dims_numeric_types'},
     'C07': {'incoherent', 'incoherent_implemented', 'incoherent_numeric', 'std_system_not_standard_unit', 'related_system', 'consistent_missing', 'consistent_public'},
     'C08': {'abbr_table_size', 'std_not_enumerator', 'map_size', 'abbr_missing', 'abbr_dup', 'abbr_public', 'stream',
-            'parse_back', 'map_keys', 'system_abbr_meaning', 'extra_key', 'spelling_target', 'spelling_parse',
+            'parse_back', 'map_keys', 'dispatch_mismatch', 'system_abbr_meaning', 'extra_key', 'spelling_target', 'spelling_parse',
             'spelling_meaning', 'nonspelling'},
     'C20': {'abbr_missing', 'map_keys', 'consistent_missing', 'abbr_table_size', 'map_size'},
 }
